@@ -26,6 +26,7 @@ class SharedWrite:
     chain: Tuple[Tuple[str, int], ...] = ()
     depth: int = 0
     owner_line: int = 0
+    records: List[Tuple[str, int, str]] = field(default_factory=list)     # (kind, line in origin_func, text)
 
     @property
     def name(self) -> str:
@@ -73,13 +74,15 @@ class World:
                 root = g.target[1]
                 fld = None
                 m = re.search(r"\bself\.(\w+)", g.origin_text)
-                if g.target[2] >= 1 and m and self.eff.is_instance_object(root):
-                    fld = m.group(1)
+                if g.target[2] >= 1 and self.eff.is_instance_object(root):
+                    fld = m.group(1) if m else infer_field(self.model, g.origin_func, g.origin_text)
                 key = (root, fld, f, g.origin_func)
                 sw = groups.get(key)
                 if sw is None:
                     sw = groups[key] = SharedWrite(root, fld, f, g.origin_func, g.origin_line, g.origin_text, set(), g.chain, g.target[2])
                 sw.kinds.add(g.kind)
+                if (g.kind, g.origin_line, g.origin_text) not in sw.records:
+                    sw.records.append((g.kind, g.origin_line, g.origin_text))
                 if g.origin_line < sw.origin_line:
                     sw.origin_line, sw.origin_text = g.origin_line, g.origin_text
                 if g.chain:
@@ -87,6 +90,58 @@ class World:
                 elif sw.owner_line == 0:
                     sw.owner_line = g.origin_line
         return list(groups.values())
+
+
+def published_before(model: Model, func: str, field: str, line: int) -> Optional[int]:
+    """line of a statement of `func` that stores an object into `self.<field>` (slot store / setdefault / append) and
+    precedes `line` in the same function -- i.e. the object written at `line` was already visible to other threads"""
+    fi = model.funcs.get(func)
+    if fi is None or fi.is_module_body:
+        return None
+    best = None
+    for n in ast.walk(fi.node):
+        ln = getattr(n, "lineno", None)
+        if ln is None or ln >= line:
+            continue
+        hit = False
+        if isinstance(n, ast.Assign):
+            for t in n.targets:
+                if isinstance(t, ast.Subscript) and re.search(r"\bself\.%s\b" % re.escape(field), core.src(t.value)):
+                    hit = True
+                elif isinstance(t, ast.Subscript) and isinstance(t.value, ast.Name):
+                    # alias of the field:  cache = self.field ; cache[key] = ...
+                    for m in ast.walk(fi.node):
+                        if isinstance(m, ast.Assign) and any(isinstance(x, ast.Name) and x.id == t.value.id for x in m.targets) and _is_self_field(m.value, field):
+                            hit = True
+        elif isinstance(n, ast.Call) and isinstance(n.func, ast.Attribute) and n.func.attr in ("setdefault", "append", "update", "add") \
+                and re.search(r"\bself\.%s\b" % re.escape(field), core.src(n.func.value)):
+            hit = True
+        if hit:
+            best = ln if best is None else min(best, ln)
+    return best
+
+
+def infer_field(model: Model, func: str, text: str) -> Optional[str]:
+    """`constants['k'] = v` where `constants = self.cache.get(key)`: the field through which the written object was reached"""
+    fi = model.funcs.get(func)
+    m = re.match(r"\s*(\w+)", text)
+    if fi is None or fi.is_module_body or not m:
+        return None
+    name = m.group(1)
+    seen: Set[str] = set()
+    todo = [name]
+    while todo:
+        nm = todo.pop()
+        if nm in seen:
+            continue
+        seen.add(nm)
+        for n in ast.walk(fi.node):
+            if isinstance(n, ast.Assign) and nm in {x for t in n.targets for x in _names(t)}:
+                mm = re.search(r"\bself\.(\w+)", core.src(n.value))
+                if mm:
+                    return mm.group(1)
+                todo.extend(_names(n.value) - seen)
+    return None
 
 
 DEFINITE_KINDS = ("subscript-store:const", "attr-aug:", "method:sort", "method:reverse", "method:clear", "method:pop", "method:remove",
@@ -169,12 +224,56 @@ def call_is_rmw(model: Model, func: str, line: int) -> bool:
     return False
 
 
-def write_is_definite(model: Model, sw: "SharedWrite") -> bool:
+def recognise_slot_memo(model: Model, func: str, attr: str) -> Optional[List[str]]:
+    """One-slot memo  `k, v = self.attr; if k == arg: return v; ...; self.attr = (arg, value)`.
+    Returns None if the function does not have that shape, else the list of problems (empty = exact-key memo whose
+    value is a function of the compared arguments)."""
+    fi = model.funcs.get(func)
+    if fi is None or not fi.cls:
+        return None
+    fn = fi.node
+    unpacked: Set[str] = set()
+    for n in ast.walk(fn):
+        if isinstance(n, ast.Assign) and _is_self_field(n.value, attr):
+            unpacked |= _names(n.targets[0])
+    stores = [n for n in ast.walk(fn) if isinstance(n, ast.Assign) and any(_is_self_field(t, attr) for t in n.targets)]
+    if not unpacked or not stores:
+        return None
+    params = set(fi.params) - {"self"}
+    problems: List[str] = []
+    guards = []
+    for n in ast.walk(fn):
+        if isinstance(n, ast.If) and (_names(n.test) & unpacked) and any(isinstance(b, ast.Return) and b.value is not None and (_names(b.value) & unpacked) for b in n.body):
+            guards.append(n)
+    if not guards:
+        return None
+    compared: Set[str] = set()
+    for g in guards:
+        tests = g.test.values if isinstance(g.test, ast.BoolOp) and isinstance(g.test.op, ast.And) else [g.test]
+        for t in tests:
+            if isinstance(t, ast.Compare) and len(t.ops) == 1 and isinstance(t.ops[0], (ast.Eq, ast.Is)) and \
+                    isinstance(t.left, ast.Name) and isinstance(t.comparators[0], ast.Name) and \
+                    ({t.left.id, t.comparators[0].id} & unpacked) and ({t.left.id, t.comparators[0].id} & params):
+                compared |= {t.left.id, t.comparators[0].id} & params
+            else:
+                problems.append(f"the remembered result is returned under `{core.src(t)}`, which is not an exact comparison of the remembered key with the argument")
+    for st in stores:
+        deps = derive_vars(fn, _names(st.value)) & params
+        missing = deps - compared
+        if missing and not problems:
+            problems.append(f"the remembered value depends on {sorted(missing)}, which the hit test does not compare")
+    return problems
+
+
+def write_is_definite(model: Model, sw: "SharedWrite", threads: bool = True) -> bool:
     """True when the write is data modification (scratch store, in-place transformation, counter-like update) rather than
-    a possibly idempotent keyed fill"""
+    a possibly idempotent keyed fill.  With threads=False (history analysis) stores that initialise an object already
+    published to shared state are not counted: single-threaded they complete before anyone can look."""
     for k in sw.kinds:
         base = k.split(" (")[0]
         escaped = "(object stored in shared state)" in k
+        if escaped and not threads:
+            continue
         if any(base.startswith(d) for d in DEFINITE_KINDS):
             return True
         if base.startswith("attr-store:") and not escaped and not is_lazy_memo_attribute(model, base.split(":", 1)[1]):
